@@ -241,6 +241,7 @@ pub fn run_seq(seq: &Seq, dir: &Path, driver: &mut Option<Driver>, opts: &RunOpt
     let mut ever_opened: std::collections::BTreeSet<usize> = Default::default();
     let mut last_hash: Option<Vec<(String, u64, u64)>> = None;
     let mut updated_since_cmp = true;
+    let mut clear_trace = false;
 
     let mut all_ops: Vec<Op> = vec![Op::Map(0, seq.kt, seq.params)];
     all_ops.extend(seq.ops.iter().cloned());
@@ -546,7 +547,7 @@ pub fn run_seq(seq: &Seq, dir: &Path, driver: &mut Option<Driver>, opts: &RunOpt
             if opts.model && driver.is_some() {
                 let wid = watch_begin(opts.op_budget_ms, format!("op={} cmp-prepare", idx));
                 let prep: Result<(), ()> = if mode == 0 {
-                    let r = imp.exec(&Op::Flush);
+                    let r = imp.exec(&Op::DbSyncData);
                     if r == "ok" { Ok(()) } else { Err(()) }
                 } else if imp.close_all() {
                     Ok(())
@@ -591,6 +592,7 @@ pub fn run_seq(seq: &Seq, dir: &Path, driver: &mut Option<Driver>, opts: &RunOpt
                         }
                         last_hash = Some(h);
                         updated_since_cmp = false;
+                        clear_trace = true;
                     }
                     if opts.decoder {
                         for (id, allowed) in model_maps.clone() {
@@ -640,6 +642,10 @@ pub fn run_seq(seq: &Seq, dir: &Path, driver: &mut Option<Driver>, opts: &RunOpt
                     }
                 }
             }
+        }
+        if clear_trace {
+            let _ = imp.take_trace();
+            clear_trace = false;
         }
         if opts.stop_first && !diffs.is_empty() {
             break;
